@@ -19,16 +19,16 @@ const NumField = "n1"
 const TextField = "t1"
 
 type CorpusOpt struct {
-	N          int    // documents
-	Vocab      int    // words per keyword field
-	MIDSpread  int    // distinct timestamps = roughly MIDSpread (small => many equal timestamps)
-	SmallRID   bool   // RIDs from a tiny range (stress tie-breaking)
-	MaxToks    int    // max tokens per field per doc
-	BodyPad    int    // max extra body bytes
-	BaseMID    uint64 // 0 => T0
-	Tag        string // distinguishes bodies of different corpora
-	Agg        bool   // add single-valued aggregation fields g1,g2 (groups) and v1,v2 (numeric)
-	Groups     int    // cardinality of g2 (g1 has at most 4 values)
+	N         int    // documents
+	Vocab     int    // words per keyword field
+	MIDSpread int    // distinct timestamps = roughly MIDSpread (small => many equal timestamps)
+	SmallRID  bool   // RIDs from a tiny range (stress tie-breaking)
+	MaxToks   int    // max tokens per field per doc
+	BodyPad   int    // max extra body bytes
+	BaseMID   uint64 // 0 => T0
+	Tag       string // distinguishes bodies of different corpora
+	Agg       bool   // add single-valued aggregation fields g1,g2 (groups) and v1,v2 (numeric)
+	Groups    int    // cardinality of g2 (g1 has at most 4 values)
 }
 
 type Corpus struct {
